@@ -394,9 +394,11 @@ PROPS = {
                 "user-list replies at quiescence (a real-time watchdog turns a wedge into a violation), no well-behaved client is disconnected; "
                 "after the hostile connections close: user list == registry == CurrentlyConnected == well-behaved clients, "
                 "DownloadsInProgress == UploadsInProgress == 0, every well-behaved client still answered. TestC03Net (child process, production "
-                "ListenAndServe over loopback): 1500 (thorough 12000) connections from as many distinct 127.x.y.z source addresses, 200 at a time, "
-                "with handshake-only / garbage / bad login / immediate close / login + mutated requests; the child must still be running, the "
-                "sentinel answered, the user list back to 1 entry, no 'fatal error' in its output; thorough adds a -race build where only race "
+                "ListenAndServe over loopback): 1500 (thorough 12000) connections from as many distinct 127.x.y.z source addresses, in batches of 500, 100 at a time, "
+                "with handshake-only / garbage / bad login / immediate close / login + mutated requests / 1.5-flow login that never agrees; a "
+                "well-behaved client that reads everything it is sent stays logged in; after every batch the child must still be running, the "
+                "sentinel answered and the user list must converge back to 1 entry (closed loop: a falling count is waited for, a count stuck "
+                "above 1 for 60 s is a leak), no 'fatal error' in its output; thorough adds a -race build where only race "
                 "reports with runtime map frames count. non-trivial = a hostile connection got past handshake and login (bubble) / sent more "
                 "than a handshake (net); distinct = hash(hostile descriptions) / hash(source, bytes)",
         "assumptions": ["the hostile account lacks disconnect-user / delete-user / modify-user: an authorised administrator removing other users is not a containment failure",
